@@ -5,6 +5,7 @@ The model (`ConfModel.Model.Report`) is `results.go` after the repair of finding
 All statements are for every number of selected cases, every outcome map and every sideband.
 -/
 import ConfModel.Lemmas.Report
+import ConfModel.Lemmas.ReportScript
 namespace ConfModel.Props.C04
 open ConfModel.Report ConfModel.RunVerdict
 
@@ -262,6 +263,38 @@ a known-failing case that fails, a flaky one that passes and a passing one are a
 example : specOk [⟨"a", .pass, .unmarked, false⟩] 2 = false ∧
     specOk [⟨"a", .assertFail, .failing, false⟩, ⟨"b", .pass, .flaky, false⟩, ⟨"c", .pass, .unmarked, false⟩] 0 = true ∧
     specOk [⟨"a", .setupErr, .failing, false⟩] 0 = false ∧ specOk [⟨"a", .pass, .unmarked, true⟩] 0 = false := by decide
+
+/-- **The API call sequence realises the assignment.**  Driving `testResults` as the
+correspondence wrapper does (`assert` / `failed` / `failedToStart` / `setOutcome` with a
+`couldNotRunError` per case in any interleaving with `recordSideband`, then `failRemaining` over
+the cases whose batch ran, then `report`) yields, for every assignment to cases with distinct
+names and `extra` further selected cases: the verdict `specOk`, the totals `specTotals`, and
+`FAILED` / `INFO` lines naming exactly the failing cases / the expected failures. -/
+theorem script_report_spec (steps : List Step) (extra : Nat)
+    (hd : ((steps.map (·.c)).map (·.name)).Nodup) :
+    let cases := steps.map (·.c)
+    let r := scriptReport (cases.length + extra) steps
+    r.ok = specOk cases extra ∧
+    (⟨r.succeeded, r.failed, r.expectedFailures, r.couldNotRun⟩ : Totals) = specTotals cases extra ∧
+    r.failedNames.Perm (specFailedNames cases) ∧ r.infoNames.Perm (specInfoNames cases) := by
+  intro cases r
+  have hperm : (scriptMap steps).Perm (finalMap cases) := scriptMap_perm steps hd
+  have hA := assignment_report (marksOf cases) cases extra
+  simp only [report, reportWith, processSideband_nil] at hA
+  obtain ⟨h1, h2, h3, h4⟩ := hA
+  have hr : r = reportWith (fun failed couldNotRun => failed == 0 && couldNotRun == 0) (marksOf cases)
+      (cases.length + extra) (runSteps (marksOf cases) steps).1 (runSteps (marksOf cases) steps).2 := rfl
+  have hM : processSideband (marksOf cases) (runSteps (marksOf cases) steps).1 (runSteps (marksOf cases) steps).2
+      = scriptMap steps := rfl
+  have hc : ∀ k, count k (scriptMap steps) = count k (finalMap cases) := fun k => hperm.countP_eq _
+  have hl : (scriptMap steps).length = (finalMap cases).length := hperm.length_eq
+  have hn : ∀ p, (namesOf p (scriptMap steps)).Perm (namesOf p (finalMap cases)) :=
+    fun p => (hperm.filter _).map _
+  rw [hr]
+  simp only [reportWith, hM, hc, hl]
+  refine ⟨h1, h2, ?_, ?_⟩
+  · rw [← h3]; exact hn _
+  · rw [← h4]; exact hn _
 
 /-- Before the repair (F03) the verdict ignored cases that could not be run or never produced
 an outcome: one passing case of three selected ones was reported as success. -/
